@@ -49,6 +49,12 @@ def edit_content(cont, shape, default, mode, sel, val):
             cont[free[sel % len(free)]] = val
         return cont
     p = pts[sel % len(pts)]
+    if mode == "nudge":
+        # the smallest kind of difference: a neighbouring value (equality is exact, there is no tolerance)
+        v = cont[p]
+        nv = v * (1 + 2.0 ** -40) if v != 0 else 2.0 ** -40
+        cont[p] = nv if nv != default and nv != v else v + 1
+        return cont
     if mode == "change":
         cont[p] = val if val != cont[p] else val + 1 if val + 1 != default else val + 2
     elif mode == "remove":
@@ -91,7 +97,7 @@ def cases(draw):
     vs = []
     for i in range(nvar):
         v = draw(variant(shape, default))
-        v["edit"] = draw(st.sampled_from(["same", "same", "change", "remove", "add", "move"])) if i else "same"
+        v["edit"] = draw(st.sampled_from(["same", "same", "change", "remove", "add", "move", "nudge"])) if i else "same"
         v["sel"] = draw(st.integers(0, 1000))
         v["val"] = draw(gen.nondefault_values(default))
         vs.append(v)
@@ -206,6 +212,41 @@ def check(case, rec):
             for k in range(n):
                 if len({i, j, k}) == 3 and res[(i, j)] and res[(j, k)] and not res[(i, k)]:
                     raise Violation("transitive", "a==b and b==c but not a==c")
+
+    # the first object is then updated in place at a stored leaf (a value becomes the default, or an explicit
+    # default becomes a value: no element is added or removed) and asked again -- the answers describe the tree as
+    # it is now
+    spec_u, o_u, cont_u = objs[0]
+    boxes = []
+
+    def leaves(f, prefix):
+        for c, p in zip(f.coords, f.payloads):
+            if isinstance(p, Fiber):
+                leaves(p, prefix + (c,))
+            else:
+                boxes.append((prefix + (c,), p))
+    leaves(as_fiber(o_u), ())
+    if boxes and len(boxes[0][0]) == d:
+        pt, box = boxes[case["variants"][0]["sel"] % len(boxes)]
+        cont_u = dict(cont_u)
+        if Payload.get(box) == default:
+            box <<= case["variants"][0]["val"]
+            cont_u[pt] = case["variants"][0]["val"]
+        else:
+            box <<= default
+            cont_u.pop(pt, None)
+        f_u = as_fiber(o_u)
+        if f_u.isEmpty() != (len(cont_u) == 0):
+            raise Violation("isEmpty", f"after an in-place update at {pt}: isEmpty()={f_u.isEmpty()} but the content has "
+                            f"{len(cont_u)} points")
+        if o_u.countValues() != len(cont_u):
+            raise Violation("countValues", f"after an in-place update at {pt}: countValues()={o_u.countValues()}, the "
+                            f"content has {len(cont_u)} points")
+        for spec, o, cont in objs[1:]:
+            if eq(o_u, o) != (cont_u == cont) or eq(o, o_u) != (cont_u == cont):
+                raise Violation("eq-content", f"after an in-place update at {pt} (a == b) is {eq(o_u, o)} but the contents "
+                                f"{'are equal' if cont_u == cont else 'differ'}")
+        rec.cls("asked-again-after-update")
 
     # classification
     a_spec, _, a_cont = objs[0]
